@@ -27,6 +27,8 @@ type Machine struct {
 	Presented []*z80.Interrupt        // every request the controller put into the slot, in order
 	Hook      func(m *Machine, a Acc) // extra per-access hook (after the controller)
 	NoPresent bool                    // when set the controller never touches cpu.Interrupt
+	// SwapMode: 1 = SwapDevices(false) at every boundary, 2 = SwapDevices(true) (host fault, see SwapDevices)
+	SwapMode int
 }
 
 // NewMachine builds a machine from scenario parts.
@@ -165,6 +167,9 @@ type StepInfo struct {
 // Step performs the boundary actions and one cpu.Step.
 func (m *Machine) Step() StepInfo {
 	m.Boundary()
+	if m.SwapMode != 0 {
+		m.SwapDevices(m.SwapMode == 2)
+	}
 	return m.StepNoBoundary()
 }
 
@@ -207,10 +212,28 @@ func (m *Machine) Restore() *Machine {
 	n := &Machine{Bus: nb, Cnt: &Counter{RETN: m.Cnt.RETN, RETI: m.Cnt.RETI}, Steps: m.Steps,
 		evs: m.evs, raised: append([]bool(nil), m.raised...), queue: append([]*z80.Interrupt(nil), m.queue...),
 		Raised: m.Raised, Accepted: m.Accepted, AccSP: m.AccSP, AccPC: m.AccPC, AccKinds: m.AccKinds,
-		Presented: m.Presented, Hook: m.Hook, NoPresent: m.NoPresent}
+		Presented: m.Presented, Hook: m.Hook, NoPresent: m.NoPresent, SwapMode: m.SwapMode}
 	n.CPU = &z80.CPU{States: m.CPU.States, Memory: nb.Memory(), IO: nb.IO(), RETNHandler: n.Cnt, RETIHandler: n.Cnt,
 		Interrupt: CloneRequest(m.CPU.Interrupt), BreakPoints: m.CPU.BreakPoints, HALT: m.CPU.HALT}
 	nb.OnAccess = n.onAccess
 	n.Cnt.OnRet = n.onRet
 	return n
 }
+
+// SwapDevices is a host action between two Steps: the CPU keeps running but its
+// Memory and IO values are replaced by new ones over the same contents and
+// cursors (equal bytes, a different interface value). With fork the CPU struct
+// itself is copied by value first (fork := *cpu; fork.Memory = other), which
+// carries every unexported field along. A reference to the replaced values that
+// the library still holds shows up as traffic through a stale view (Stale).
+func (m *Machine) SwapDevices(fork bool) {
+	m.Bus.Gen++
+	if fork {
+		c := *m.CPU
+		m.CPU = &c
+	}
+	m.CPU.Memory, m.CPU.IO = m.Bus.Memory(), m.Bus.IO()
+}
+
+// Stale reports the accesses that arrived through replaced device values.
+func (m *Machine) StaleCount() int { return m.Bus.StaleAcc }
